@@ -402,6 +402,26 @@ func (g *Gen) factory(env []binding, d int) r.Val {
 		r.L(sym("+"), call(third, g.lit()), call(second, g.lit()), call(first, g.lit()), call(second, g.lit()), call(first, g.lit())))
 }
 
+// nilStep: now and then a do loop gets one more variable whose step form is the literal nil (or the empty list): from
+// the second round on it is nil, a step form that is there is not the same as none. The variable is only looked at
+// through marks (first body form, result form), so its two types do not matter.
+func (g *Gen) nilStep(env []binding, d int) (spec r.Val, look func() r.Val) {
+	if g.pick("nilstep", 3) != 0 {
+		return nil, nil
+	}
+	g.kind("do-nil-step")
+	f := "f" + g.varName()
+	var step r.Val
+	spec = r.L(sym(f), g.Expr(TInt, env, d+1), step)
+	if g.pick("nilstep-empty-list", 2) == 0 {
+		spec = r.L(sym(f), g.Expr(TInt, env, d+1), r.L())
+	}
+	return spec, func() r.Val {
+		g.nextMark++
+		return r.L(sym("vt:mark"), g.nextMark, sym(f))
+	}
+}
+
 func (g *Gen) loopAcc(env []binding, d int) r.Val {
 	g.Feat["loop"] = true
 	acc := g.varName()
@@ -427,6 +447,11 @@ func (g *Gen) loopAcc(env []binding, d int) r.Val {
 			jspec = r.L(sym(j), g.Expr(TInt, env, d+1)) // no step form: the variable keeps its value
 		}
 		end := r.L(sym("="), sym(it), int64(rapid.IntRange(0, 3).Draw(g.T, "doend")))
+		if fspec, look := g.nilStep(env, d); fspec != nil {
+			return r.L(sym("do"), r.L(r.L(sym(it), int64(0), r.L(sym("1+"), sym(it))), jspec, fspec),
+				r.L(end, look(), g.Expr(TInt, inner, d+1)),
+				look(), g.Expr(TAny, inner, d+2))
+		}
 		if g.pick("noresult", 4) == 0 {
 			// no result form: the value of the loop is nil whatever the end test returned
 			g.kind("do-without-result")
@@ -446,6 +471,10 @@ func (g *Gen) loopAcc(env []binding, d int) r.Val {
 		specs := r.L(
 			r.L(sym(it), int64(0), r.L(sym("1+"), sym(it))),
 			r.L(sym(j), r.L(sym("+"), sym(it), g.lit()), r.L(sym("+"), sym(j), sym(it))))
+		if fspec, look := g.nilStep(env, d); fspec != nil {
+			specs = append(specs.([]r.Val), fspec)
+			return r.L(sym("do*"), specs, r.L(end, look(), g.Expr(TInt, inner, d+1)), look(), g.Expr(TAny, inner, d+2))
+		}
 		if g.pick("noresult", 4) == 0 {
 			g.kind("do-without-result")
 			return r.L(sym("if"), r.L(sym("do*"), specs, r.L(end), g.Expr(TAny, inner, d+2)), g.Expr(TInt, env, d+1), g.Expr(TInt, env, d+1))
